@@ -8,6 +8,8 @@ from sys import maxsize
 from deprecated import deprecated
 from typing import Union
 
+_verif_tracer = None  # set by ECAgent._verif when ECAGENT_VERIF_TRACE is set (verification instrumentation)
+
 
 class ModelStatus(IntEnum):
     """Enum that describes the status of a ``Model``.
@@ -700,6 +702,8 @@ class SystemManager:
                 continue
             if sys.start <= self.timestep <= sys.end and (sys.start - self.timestep) % sys.frequency == 0:
                 sys.execute()
+                if _verif_tracer is not None:
+                    _verif_tracer(sys)
         self.timestep += 1
 
     @deprecated(reason='For not meeting standard python naming conventions. Use "execute_systems" instead.')
@@ -1156,3 +1160,9 @@ class ModelCompleteError(Exception):
     def __init__(self):
         self.message = 'execute_systems() was called on a model with status "ModelStatus.COMPLETE".'
         super(ModelCompleteError, self).__init__(self.message)
+
+
+import os as _os  # noqa: E402
+if _os.environ.get("ECAGENT_VERIF_TRACE"):  # verification instrumentation, off by default
+    from ECAgent import _verif
+    _verif.install_core(globals())
